@@ -32,6 +32,10 @@ class ParseSoup(Stream):
             "s .call = foo { }",                # F18 (open): ValueError escapes
             "a=1\n.expert_level = inf",         # formerly F6-attr (repaired): OverflowError escaped
             "a=1\n.input_size = nan",
+            # formerly: a '%' in the text of the evaluation error broke the error message (repaired in /repo 6f9fa24)
+            "a=1\n.type = int(value_min=dict()['%s'])",
+            "a=1\n.type = floats(size=getattr(1,'%d'))",
+            "a=1\n.type = ints(value_max=int('%s'))",
         ]
 
     def cases(self, rng, tier):
@@ -194,6 +198,68 @@ class ConverterValues(c10.FromWords):
         return case[2] == "v" or case[1].strip() != ""
 
 
+import c09 as _c09  # noqa: E402
+
+HOSTILE = ["", " ", "~", "~\x00", "~a\x00b", "\x00", "a\x00b", "~root", "~nosuchuser_qzk/x", "~/x", "~~", "a~", "\x01\x02\x1f", "\x7f\xff\x85\xa0",
+           "\t\n\r\x0b\x0c", "\x1c\x1d\x1e", "None", "Auto", "none", "$x", "${x}", "$(x)", "a$", "\\", "\\\\\"", "'", '"', "'" * 3, '"' * 3,
+           "a'b", 'a"b', '"x', "'x", "x y", " x ", "x\ny", "#", "{", "}", ";", "=", "!", "*", "a+b", "\xe9\xfc", "~" + "a" * 300,
+           "a" * 5000, "~/" + "b/" * 2000, " ".join(["w"] * 1500), "\x00" * 50]
+TEXT_TYPES = ["none", "words", "strings", "str", "qstr", "path", "key"]
+
+
+class TextConverterValues(_c09.ConvRoundTrip):
+    """hostile texts (NUL bytes, tildes, control characters, unbalanced quotes, '$', very long values) as values of the text
+    types (no type, words, strings, str, qstr, path, key): definition.format(value), .extract() of the result, and the
+    printed form parsed, fetched and extracted again.  Correspondence as in C09 (model: Extract cluster; os.path.expanduser
+    and eval are recorded oracles, a refusal of expanduser included); property = only RuntimeError / Sorry escape and every
+    call returns."""
+    name = "text_converter_values"
+
+    def value(self, tk, text, rng=None):
+        if tk in ("str", "qstr", "path", "key"):
+            return ["str", text]
+        if tk == "words":
+            return ["words", [[text, "2"]] if rng is None or rng.random() < 0.6 else [[text, rng.choice("12sd")], ["x", "n"]]]
+        extra = [] if rng is None or rng.random() < 0.6 else [["str", rng.choice(HOSTILE[:40])]]
+        return ["list", [["str", text]] + extra]
+
+    def corpus(self):
+        out = []
+        for text in ("~a\x00b", "~\x00", "\x00", "~", '"x', "a" * 5000):
+            for tk in TEXT_TYPES:
+                out.append([tk, None, self.value(tk, text), "hostile"])
+        return out
+
+    def cases(self, rng, tier):
+        for text in HOSTILE:
+            for tk in TEXT_TYPES:
+                yield [tk, None, self.value(tk, text, rng), "hostile"]
+        n = 600 if tier == "quick" else 12000
+        alpha = ["\x00", "~", "/", "a", " ", "\n", "'", '"', "\\", "$", "\x01", "\x7f", "\xff", "#", "{", ";"]
+        for i in range(n):
+            k = rng.choice([1, 2, 3, 5, 8, 30])
+            text = "".join(rng.choice(alpha) for _ in range(k))
+            if i % 3 == 0:
+                text = "~" + text
+            tk = TEXT_TYPES[i % len(TEXT_TYPES)]
+            yield [tk, None, self.value(tk, text, rng), "hostile"]
+
+    def prop(self, case, o):
+        if o and o[0] in ("impl-timeout", "impl-exception"):
+            return "%s for type %s on %r" % (o, case[0], case[2])
+        for what, r in zip(("format", "extract", "print+parse+fetch+extract"), o):
+            if isinstance(r, list) and r and r[0] == "err" and str(r[1]).startswith("other:"):
+                return "%s: %s escaped for type %s on %r" % (what, r[1], case[0], case[2])
+        return None
+
+    def in_domain(self, case):
+        return True
+
+    def tag(self, case, o):
+        cls = [r[1] if isinstance(r, list) and r and r[0] == "err" else "ok" for r in o if r != []]
+        return case[0] + ":" + "/".join(cls)
+
+
 import c04 as _c04  # noqa: E402
 import fetch_common as _fc  # noqa: E402
 
@@ -205,19 +271,27 @@ class FetchNoCrash(_c04.FetchShape):
     name = "fetch_no_crash"
 
     def corpus(self):
-        return []
+        # repaired in ceef076: a disabled .multiple object after an active non-multiple namesake holding None used to turn
+        # the value into an empty list; extract_format inside fetch then raised AttributeError
+        return [
+            {"m": "c = None\n  .type = path\n!c = x\n  .multiple = True\n", "s": [], "env": [], "diff": 0, "kind": "plain"},
+            {"m": "c\n  .optional = True\n  .multiple = True\n{\n  c = None\n    .type = path\n  !c = Auto\n    .type = strings\n"
+                  "    .multiple = True\n}\n", "s": ["c { c = /a/b }\nc { }\n"], "env": [], "diff": 0, "kind": "plain"},
+            {"m": "c\n  .optional = True\n  .multiple = True\n{\n  c = None\n    .type = path\n  !c = Auto\n    .type = strings\n"
+                  "    .multiple = True\n}\n", "s": [], "env": [], "diff": 1, "kind": "plain"},
+        ]
 
     def requests(self, case, impl_obs):
         reqs = super().requests(case, impl_obs)
         # the hypotheses of C16_fetch_no_crash, evaluated by the model on this master / these sources
-        self._nfetch = len(reqs)
+        self.__dict__.setdefault("_nfetch_by_case", {})[self.ckey(case)] = len(reqs)
         if self.in_domain(case) and reqs:
             first = reqs[0][1]
             reqs = reqs + [("fetchok", [first[0], first[1]])]
         return reqs
 
     def model(self, case, replies, impl_obs):
-        n = getattr(self, "_nfetch", len(replies))
+        n = self.__dict__.get("_nfetch_by_case", {}).get(self.ckey(case), len(replies))
         m = super().model(case, replies[:n], impl_obs)
         if len(replies) > n and replies[n] != ["1", "1"] and m != "UNMODELLED":
             return ["hypotheses-of-C16_fetch_no_crash-do-not-hold", replies[n], m]
@@ -275,9 +349,11 @@ class FetchNoCrash(_c04.FetchShape):
         return uniq(m)
 
 
+from c16_returns import Returns  # noqa: E402  (wall-clock bound in a child interpreter)
+
 SPEC = {
-    "clusters": ["Parse", "Tok", "Conv", "Fetch"],
-    "streams": [ParseSoup, ArgSoup, OffRegionSoup, ScanNoCrash, ConverterValues, FetchNoCrash],
+    "clusters": ["Parse", "Tok", "Conv", "Fetch", "Extract"],
+    "streams": [Returns, ParseSoup, ArgSoup, OffRegionSoup, ScanNoCrash, ConverterValues, TextConverterValues, FetchNoCrash],
     "match_finding": match_finding,
     "rule": "PHIL-biased token soup and 1-2 mutations (delete/duplicate/transpose/truncate/insert) of generated documents into freephil.parse "
             "and into argument_interpreter.process_arg; observation = outcome class (ok / RuntimeError / Sorry / other:<Class>); the model's "
